@@ -5,6 +5,8 @@ specification text written for this framework (spec fns, lemmas, opaque declarat
 pull *exact source spans* out of /repo on every run and splice contracts / ghost annotations in:
 
   //@@ type <relpath> :: <item head>             copy of a struct/enum definition (rule D1: attributes dropped)
+  //@@ typereplace <rule> `<old>` => `<new>`     exact replacement inside the type copied by the preceding `type` directive
+                                                 (rule D8: a field type without Verus model spelled as an opaque struct); once
   //@@ opaque <Name> :: <relpath>                `#[verifier::external_body] pub struct Name {..}` (rule D6); Name must
                                                  still be declared in <relpath>
   //@@ fn <relpath> :: <impl head | -> :: <fn name>
@@ -16,6 +18,8 @@ pull *exact source spans* out of /repo on every run and splice contracts / ghost
   //@@   rule D2|D5                              tolerant textual rules (see RULES below)
   //@@   replace <rule> `<old>` => `<new>`       exact, must match exactly once (fail closed)
   //@@   replaceall <rule> `<old>` => `<new>`    exact, every occurrence, at least one (fail closed)
+  //@@   splitarm [#k] `<pattern>`               rule D11: the match arm whose pattern is the or-pattern <pattern> is written as
+                                                 one arm per alternative, each with a verbatim copy of the arm's body
   //@@   cutarm [#k] `<pattern>` => `<expr>`     rule D7: the match arm whose pattern is <pattern> (white-space
                                                  insensitive, must match exactly one arm) keeps its pattern but its
                                                  body is replaced by <expr> — normally a call of an uninterpreted
@@ -107,9 +111,9 @@ def rule_D5c(body):
     return pat.sub(new, body, count=1), [("D5", f".map(|_| {ident})", new)]
 
 
-def cut_arm(body, pattern, expr, ordinal=None):
-    """D7: replace the body of the one match arm whose pattern equals `pattern` (ignoring white-space); with
-    `#k of n` the k-th of exactly n such arms."""
+def locate_arm(body, pattern, ordinal=None, rule="D7"):
+    """Find the match arm whose pattern equals `pattern` (ignoring white-space); with `#k` the k-th such arm.
+    -> (pat_start, arrow, body_start, end, has_trailing_comma, depth_of_arm)"""
     m = mask(body)
     # nesting depth over all bracket kinds, before each character
     depth, d = [], 0
@@ -150,16 +154,17 @@ def cut_arm(body, pattern, expr, ordinal=None):
             hits.append((pat_start, arrow))
     if ordinal is None:
         if len(hits) != 1:
-            raise LostAnchor(f"rule D7: arm pattern `{pattern[:60]}` matched {len(hits)} arms")
+            raise LostAnchor(f"rule {rule}: arm pattern `{pattern[:60]}` matched {len(hits)} arms")
         pat_start, arrow = hits[0]
     else:
         if not (1 <= ordinal <= len(hits)):
-            raise LostAnchor(f"rule D7: arm pattern `{pattern[:60]}` #{ordinal} of {len(hits)} arms")
+            raise LostAnchor(f"rule {rule}: arm pattern `{pattern[:60]}` #{ordinal} of {len(hits)} arms")
         pat_start, arrow = hits[ordinal - 1]
     d0 = depth[arrow]
     k = arrow + 2
     while body[k] in " \t\n":
         k += 1
+    comma = False
     if m[k] == "{":
         end = match_close(m, k)
         tail = end
@@ -167,15 +172,102 @@ def cut_arm(body, pattern, expr, ordinal=None):
             tail += 1
         if tail < len(body) and body[tail] == ",":
             end = tail + 1
+            comma = True
     else:
         end = k
         while end < len(m) and not (m[end] == "," and depth[end] == d0) and not (m[end] == "}" and depth[end] == d0 - 1):
             end += 1
         if end < len(m) and m[end] == ",":
             end += 1
+            comma = True
+    return pat_start, arrow, k, end, comma
+
+
+def cut_arm(body, pattern, expr, ordinal=None):
+    """D7: replace the body of the one match arm whose pattern equals `pattern` (ignoring white-space); with
+    `#k of n` the k-th of exactly n such arms."""
+    pat_start, arrow, k, end, comma = locate_arm(body, pattern, ordinal, "D7")
     old = body[k:end]
     new_body = body[:k] + expr + "," + body[end:]
     return new_body, [("D7", "arm `" + re.sub(r"\s+", " ", pattern)[:100] + "`: body of " + str(old.strip().count(chr(10)) + 1) + " line(s) replaced, not verified", expr)]
+
+
+def split_arm(body, pattern, ordinal=None):
+    """D11: `P1 | P2 | .. => BODY` (an or-pattern, which Verus rejects when it binds by mutable reference) is written as
+    `P1 => BODY, P2 => BODY, ..` — one arm per alternative, the body copied verbatim.  In Rust an or-pattern arm means
+    exactly that (all alternatives bind the same names with the same types)."""
+    pat_start, arrow, k, end, comma = locate_arm(body, pattern, ordinal, "D11")
+    pat = body[pat_start:arrow]
+    mp = mask(pat)
+    alts, d, last = [], 0, 0
+    for i, ch in enumerate(mp):
+        if ch in "([{":
+            d += 1
+        elif ch in ")]}":
+            d -= 1
+        elif ch == "|" and d == 0:
+            alts.append(pat[last:i])
+            last = i + 1
+    alts.append(pat[last:])
+    alts = [a.strip() for a in alts]
+    if len(alts) < 2 or any(not a for a in alts):
+        raise LostAnchor(f"rule D11: `{pattern[:60]}` is not an or-pattern")
+    arm_body = body[k:end].rstrip()
+    if arm_body.endswith(","):
+        arm_body = arm_body[:-1]
+    lead = re.match(r"\s*", pat).group(0)
+    arms = "".join(f"{lead}{a} => {arm_body}," for a in alts)
+    new_body = body[:pat_start] + arms + body[end:]
+    return new_body, [("D11", "arm `" + re.sub(r"\s+", " ", pattern)[:100] + "`", f"{len(alts)} arms with the same body")]
+
+
+def rule_D10(body):
+    """D10: `RECV.iter_mut().for_each(|x| { BODY })` is written as `for x in RECV.iter_mut() { BODY }` — the definition of
+    Iterator::for_each for a closure without early exit.  RECV must be a plain field path, BODY must not contain
+    `return`, `break`, `continue` or `?` (their meaning would change); every occurrence, at least one."""
+    applied = []
+    while True:
+        m = mask(body)
+        mm = re.search(r"([A-Za-z_][A-Za-z0-9_]*(?:\s*\.\s*[A-Za-z_0-9]+)*)\s*\.iter_mut\(\)\s*\.for_each\(\s*\|\s*([A-Za-z_][A-Za-z0-9_]*)\s*\|\s*\{", m)
+        if not mm:
+            break
+        open_brace = mm.end() - 1
+        close_brace = match_close(m, open_brace)            # index just after the `}`
+        k = close_brace
+        while k < len(m) and m[k] in " \t\n":
+            k += 1
+        if k >= len(m) or m[k] != ")":
+            raise LostAnchor("rule D10: closure block of for_each is not directly followed by `)`")
+        blk = m[open_brace:close_brace]
+        if re.search(r"\breturn\b|\bbreak\b|\bcontinue\b|\?", blk):
+            raise LostAnchor("rule D10: for_each closure contains return/break/continue/?")
+        recv, var = mm.group(1), mm.group(2)
+        new = f"for {var} in {recv}.iter_mut() " + body[open_brace:close_brace]
+        applied.append(("D10", re.sub(r"\s+", " ", body[mm.start():open_brace + 1])[:120] + " .. })", f"for {var} in {recv}.iter_mut() {{ .. }}"))
+        body = body[:mm.start()] + new + body[k + 1:]
+    if not applied:
+        raise LostAnchor("rule D10: no `.iter_mut().for_each(|x| { .. })` found")
+    return body, applied
+
+
+def rule_D5b(body):
+    """D5 (closure body): `.map(|x| EXPR)` with EXPR not a block is written `.map(|x| { EXPR })`, so that a ghost
+    signature can be attached to the closure; same value.  Every occurrence, at least one."""
+    applied, pos = [], 0
+    while True:
+        m = mask(body)
+        mm = re.compile(r"\.map\(\s*\|\s*([A-Za-z_][A-Za-z0-9_]*)\s*\|\s*(?=[^\s{])").search(m, pos)
+        if not mm:
+            break
+        call_open = m.index("(", mm.start())
+        call_close = match_close(m, call_open) - 1          # index of the matching `)`
+        expr = body[mm.end():call_close]
+        body = body[:mm.end()] + "{ " + expr.rstrip() + " }" + body[call_close:]
+        applied.append(("D5", f".map(|{mm.group(1)}| <expr>)", f".map(|{mm.group(1)}| {{ <expr> }})"))
+        pos = mm.end()
+    if not applied:
+        raise LostAnchor("rule D5b: no `.map(|x| <expr>)` closure found")
+    return body, applied
 
 
 def rule_D5m(body):
@@ -225,7 +317,7 @@ def rule_D4t(body):
     return pat.sub("range_from_element(", body), [("D4", "<Option<&SubtypeElements> as TryInto<PerVisibleRangeConstraints>>::try_into(", "range_from_element(")] * n
 
 
-RULES = {"D2": rule_D2, "D5": rule_D5, "D5c": rule_D5c, "D5m": rule_D5m, "D9": rule_D9, "D4t": rule_D4t}
+RULES = {"D2": rule_D2, "D5": rule_D5, "D5c": rule_D5c, "D5m": rule_D5m, "D9": rule_D9, "D4t": rule_D4t, "D10": rule_D10, "D5b": rule_D5b}
 
 
 class FnUnit:
@@ -235,6 +327,7 @@ class FnUnit:
         self.rename = self.selftype = self.vis = self.ret = None
         self.rules, self.replaces, self.inserts, self.contract = [], [], [], []
         self.cutarms = []
+        self.splitarms = []
 
 
 def parse_template(text):
@@ -259,7 +352,13 @@ def parse_template(text):
         if d.startswith("type "):
             flush()
             relpath, head = [x.strip() for x in d[5:].split("::", 1)]
-            out.append(("type", relpath, head))
+            out.append(("type", relpath, head, []))
+            i += 1
+        elif d.startswith("typereplace "):
+            mm = re.match(r"typereplace\s+(\S+)\s+`(.*)`\s*=>\s*`(.*)`$", d)
+            if not mm or not out or out[-1][0] != "type":
+                raise TemplateError(f"bad typereplace (must follow a type directive): {d}")
+            out[-1][3].append(mm.groups())
             i += 1
         elif d.startswith("opaque "):
             flush()
@@ -294,6 +393,11 @@ def parse_template(text):
                     if not mm:
                         raise TemplateError(f"bad replace: {rest}")
                     fu.replaces.append(mm.groups() + (key == "replaceall",))
+                elif key == "splitarm":
+                    mm = re.match(r"(?:#(\d+)\s+)?`(.*)`$", rest)
+                    if not mm:
+                        raise TemplateError(f"bad splitarm: {rest}")
+                    fu.splitarms.append((int(mm.group(1)) if mm.group(1) else None, mm.group(2)))
                 elif key == "cutarm":
                     mm = re.match(r"(?:#(\d+)\s+)?`(.*)`\s*=>\s*`(.*)`$", rest)
                     if not mm:
@@ -374,9 +478,14 @@ def build(template_path, repo_root):
         if part[0] == "text":
             chunks.append(part[1] + "\n")
         elif part[0] == "type":
-            _, relpath, head = part
+            _, relpath, head, treps = part
             sp = src(relpath).find_item(head)
             text, dropped = strip_attrs(sp.text)
+            for rule, old, new in treps:
+                if len(find_all(text, old)) != 1:
+                    raise LostAnchor(f"{sp.where()} type `{head}`: rule {rule} text `{old}` matched {len(find_all(text, old))} times")
+                text = text.replace(old, new)
+                dropped.append(f"{rule}: `{old}` spelled `{new}`")
             bu.types.append({"head": head, "where": sp.where(), "sha256": sp.sha256, "dropped_attrs": dropped})
             chunks.append(f"// ---- extracted verbatim from {sp.where()} (D1: {len(dropped)} attribute(s) dropped)\n{text}\n")
         elif part[0] == "opaque":
@@ -392,6 +501,9 @@ def build(template_path, repo_root):
             sig, body = split_fn(sp.text)
             drops = []
             # --- rules on the executable text (each recorded) ---
+            for ordinal, pattern in fu.splitarms:
+                body, applied = split_arm(body, pattern, ordinal)
+                drops += applied
             for r in fu.rules:
                 if r not in RULES:
                     raise TemplateError(f"unknown rule {r}")
